@@ -455,7 +455,7 @@ def check_error(ms, request, exc, message, reserved):
         return []
     if exc == "ValueError" and "query params may not contain repeated dicts or lists" in message:
         if first is None:
-            return [(f"client raised {exc}: {message[:120]} for a request that matches no binding", None)]
+            return []          # no binding applies: nothing may be sent, and nothing was
         b = binds[first]
         from .c04_api import leaves_of
         for l in leaves_of(request):
